@@ -1,4 +1,5 @@
 mod cfgbuild;
+mod envexpand;
 mod fanout;
 mod filetrace;
 mod rng;
@@ -22,6 +23,7 @@ fn main() {
         "routing" => routing::main(rest),
         "cfgbuild" => cfgbuild::main(rest),
         "fanout" => fanout::main(rest),
+        "envexpand" => envexpand::main(rest),
         "reconfig" => reconfig::main(rest),
         "reloader" => reloader::main(rest),
         "filetrace" => filetrace::main(rest),
